@@ -95,7 +95,7 @@ func c19Messages(quick bool) []string {
 	var out []string
 	vals := c19Values()
 	ids := c19IDs()
-	methods := []string{"m", "tools/call", "notifications/x", "ü/√", "a b"}
+	methods := []string{"m", "tools/call", "notifications/x", "ü/√", "a b", ""}
 	for i, id := range ids {
 		for j, v := range vals {
 			if quick && (i+j)%4 != 0 {
